@@ -23,9 +23,9 @@ META = {
         "defect sets computed by R-IBAN / R-BIC; wrong length also allows InvalidStructure; BIC country part not two letters also allows InvalidStructure",
         "national layer: R-NAT / R-DE; when they say REJECT or DONT_CARE, InvalidBBANChecksum (and Norway's InvalidAccountCode) is allowed",
     ],
-    "min_distinct": {"quick": 40000, "thorough": 600000},
+    "min_distinct": {"quick": 80000, "thorough": 2500000},
 }
-SIZES = {"quick": dict(per_country=260, sweep=2, bic=9000, w7=4000, parts=16), "thorough": dict(per_country=9000, sweep=12, bic=250000, w7=100000, parts=48)}
+SIZES = {"quick": dict(per_country=700, sweep=3, bic=25000, w7=8000, parts=16), "thorough": dict(per_country=30000, sweep=30, bic=1000000, w7=400000, parts=48)}
 
 
 def plan(tier, seed):
